@@ -515,8 +515,12 @@ pub fn c18(ctx: &mut Ctx) -> R {
 
 // ============================================================================================ C19
 
+/// (input, output) pairs enumerated by the run index: every output size 6..=11000 x 8 input classes.
+pub const C19_ENUM: u64 = 10_995 * 8;
+
 pub fn c19(ctx: &mut Ctx) -> R {
     set_observed(false);
+    let enumerated = ctx.sub == 3;
     let chunked = ctx.sub != 2;
     let use_call = ctx.chance(1, 3);
     let framing = if chunked { SendFraming::DefaultChunked } else { SendFraming::Sized(1 << 50) };
@@ -543,16 +547,34 @@ pub fn c19(ctx: &mut Ctx) -> R {
         4 => ctx.range(min_out, 300),
         _ => ctx.range(4090, 4120),
     };
+    let k = (ctx.index / 4) % C19_ENUM;
+    let out_len = if enumerated { 6 + (k % 10_995) as usize } else { out_len };
     let mut out = vec![0u8; out_len];
-    if ctx.sub == 0 || ctx.sub == 2 {
+    if ctx.sub == 0 || ctx.sub == 2 || enumerated {
         // ---------------------------------------------------------------- (a) pairs
-        let in_len = match ctx.draw(5) {
+        let adv = s2.max_input(out_len).unwrap();
+        let in_len = if enumerated {
+            ctx.count("p:enumerated_pair");
+            match k / 10_995 {
+                0 => 1,
+                1 => adv.max(1),
+                2 => adv + 1,
+                3 => adv.saturating_sub(1).max(1),
+                4 => out_len,
+                5 => out_len + 1,
+                6 => out_len.saturating_sub(5).max(1),
+                _ => 2 * CHUNK + 17,
+            }
+        } else {
+            0
+        };
+        let in_len = if enumerated { in_len } else { match ctx.draw(5) {
             0 => ctx.range(1, 20),
             1 => ctx.range(1, out_len + 10),
             2 => ctx.range(1, 3 * CHUNK),
             3 => out_len.saturating_sub(ctx.range(0, 8)).max(1),
             _ => out_len + ctx.range(0, 40),
-        };
+        } };
         ctx.sample(|| format!("{} body pair: input {} bytes, output buffer {} bytes, api={}", if chunked { "chunked" } else { "length-delimited" }, in_len, out_len, if use_call { "Call" } else { "Flow" }));
         let input = body_bytes(seed, 0, in_len + 64);
         let (c, p) = match s.write(ctx, &input[..in_len], &mut out) {
